@@ -118,6 +118,7 @@ class Unit:
         self.canaries = []     # generated `requires P ensures false` vacuity canaries (must fail)
         self.clauses = []      # tagged contract clauses: dict(fn, tags, label, out_line)
         self.missing = []      # functions the contract requires to exist but that are absent from the source
+        self.lost_regions = []  # implicit-tag refinements whose anchor is gone (harmless: function-level tags apply)
         self.lost_hints = []   # overlay proof hints / invariants whose anchor statement no longer exists (unit is "degraded")
 
     def emit(self, text, origin):
@@ -213,6 +214,11 @@ def _process(unit, tpath, repo):
             vis = kv.get("vis", "pub")
             unit.items.append({"file": f, "path": path, "lines": [_line_of(src, start), _line_of(src, it.end)], "sha256": sha(orig)})
             unit.emit((vis + " " if vis != "none" else "") + text, {"kind": "src", "file": f, "line0": _line_of(src, start), "fn": None})
+            i += 1
+            continue
+        if s.startswith("//@auto_helpers "):
+            kv, rest = _parse_kv(s[len("//@auto_helpers "):].split())
+            _emit_auto_helpers(unit, [x.strip(",") for x in rest if x.strip(",")], src_of, [r for r in kv.get("rules", "").split(",") if r], rel, i + 1)
             i += 1
             continue
         if s.startswith("//@lits"):
@@ -366,6 +372,7 @@ def _emit_body(unit, fnrec, dirs):
         raise Inconclusive("internal: line count changed by rules in %s" % fnrec["qual"])
     # splice overlay
     inserts = []   # (offset, text)
+    regions = []
     loops = None
     for (tl, d) in dirs:
         m = re.match(r'^(loop)\s+(\d+)\s*:\s*(.*)$', d, re.S)
@@ -394,6 +401,20 @@ def _emit_body(unit, fnrec, dirs):
                 off += len(anchor)
             inserts.append((off, " " + m.group(4).strip() + " ", tl))
             continue
+        m = re.match(r'^implicit\s+([\w,]+)\s+from\s+"((?:[^"\\]|\\.)*)"(?:\s+to\s+"((?:[^"\\]|\\.)*)")?\s*$', d.strip(), re.S)
+        if m:
+            # implicit (safety) obligations between two anchors of the real body carry extra property tags; a lost
+            # anchor only loses the refinement (the function-level implicit tags still apply), never the obligation
+            a1 = m.group(2).replace('\\"', '"')
+            o1 = body.find(a1)
+            o2 = len(body)
+            if m.group(3):
+                o2 = body.find(m.group(3).replace('\\"', '"'), max(o1, 0))
+            if o1 < 0 or o2 < 0 or body.count(a1) != 1:
+                unit.lost_regions.append("implicit region `%s` of %s" % (a1, fnrec["qual"]))
+                continue
+            regions.append({"tags": [t for t in m.group(1).split(",") if t], "l0": body.count("\n", 0, o1), "l1": body.count("\n", 0, o2)})
+            continue
         m = re.match(r'^(at_start|at_end)\s*:\s*(.*)$', d, re.S)
         if m:
             off = 1 if m.group(1) == "at_start" else len(body) - 1
@@ -409,8 +430,143 @@ def _emit_body(unit, fnrec, dirs):
         off, text, tl = inserts[k]
         body = body[:off] + text.replace("\n", " ") + body[off:]
     fnrec["overlay_inserts"] = len(inserts)
+    fnrec["calls"] = _called_names(body)
     fnrec["body_out_first"] = len(unit.out_lines) + 1
+    fnrec["implicit_regions"] = [{"tags": r["tags"], "first": fnrec["body_out_first"] + r["l0"], "last": fnrec["body_out_first"] + r["l1"]} for r in regions]
     unit.emit(body, {"kind": "src", "file": fnrec["file"], "line0": _line_of(src, it.body_open), "fn": fnrec["qual"]})
+
+
+_NOT_CALLS = {"if", "while", "match", "for", "loop", "return", "fn", "Some", "Ok", "Err", "None", "assert", "proof", "let", "in", "as", "move", "ref", "mut", "else", "break", "continue", "Self", "self", "super", "crate"}
+
+
+def _called_names(text):
+    """Identifiers used in call position (`name(`, `.name(`, `Path::name(`), macros excluded."""
+    try:
+        toks = tokenize(text)
+    except LexError:
+        return []
+    out = set()
+    for i, t in enumerate(toks[:-1]):
+        if t.kind == "id" and toks[i + 1].text == "(" and t.text not in _NOT_CALLS and not (i > 0 and toks[i - 1].text == "fn") and not t.text[0].isupper():
+            out.add(t.text)
+    return sorted(out)
+
+
+_PURE_METHODS = {"len", "is_some", "is_none", "is_ok", "is_err", "is_empty"}
+
+
+def _pure_expr(body):
+    """`{ EXPR }` where EXPR is one side-effect-free expression Verus can read as a specification: field accesses,
+    literals, operators, comparisons and the few std observers with a specification reading.  Returns EXPR or None."""
+    inner = body.strip()[1:-1].strip()
+    inner = re.sub(r"//[^\n]*", "", inner).strip()
+    if not inner or re.search(r"[;!?|{}]|\blet\b|\bmut\b|\bunsafe\b|\bloop\b|\bwhile\b|\bmatch\b|\bif\b|=>|&&\s*$", inner.replace("!=", " ne ")) :
+        return None
+    try:
+        toks = tokenize(inner)
+    except LexError:
+        return None
+    for i, t in enumerate(toks[:-1]):
+        if t.kind == "id" and toks[i + 1].text == "(" and t.text not in _PURE_METHODS:
+            return None
+    return inner
+
+
+def _emit_auto_helpers(unit, files, src_of, rules, rel, tline):
+    """Functions of the named source files that extracted bodies call but the unit does not define (helpers a change
+    introduced, or small accessors): copied in verbatim.  A single-expression pure helper gets the generated
+    contract `ensures result == <its own body expression>` (its definition); any other helper is copied without a
+    contract, which leaves its callers' obligations undecidable by the verifier (the unit is then `degraded`)."""
+    unit.auto_helpers = getattr(unit, "auto_helpers", [])
+    from rstok import parse_items
+    cands = []   # (file, src, impl item or None, fn item)
+    for f in files:
+        src = src_of(f)
+        try:
+            items = parse_items(src)
+        except LexError as e:
+            raise Inconclusive("cannot tokenize %s: %s" % (f, e))
+        for it in items:
+            if it.kind == "fn" and it.body_open is not None:
+                cands.append((f, src, None, it))
+            elif it.kind == "impl" and not it.trait:
+                for sub in it.sub:
+                    if sub.kind == "fn" and sub.body_open is not None:
+                        cands.append((f, src, it, sub))
+    for _round in range(6):
+        text = "\n".join(unit.out_lines)
+        defined = set(re.findall(r"\bfn\s+(\w+)", text))
+        types = set(re.findall(r"\b(?:struct|enum)\s+(\w+)", text))
+        wanted = {}
+        for fr in unit.fns:
+            for nm in fr.get("calls", []):
+                if nm not in defined:
+                    wanted.setdefault(nm, []).append(fr)
+        new = False
+        for (f, src, imp, it) in cands:
+            if it.name not in wanted or it.name in defined:
+                continue
+            if imp is not None and re.sub(r"<.*", "", imp.name).strip() not in types:
+                continue
+            callers = wanted[it.name]
+            _emit_helper(unit, f, src, imp, it, rules, callers, rel, tline)
+            defined.add(it.name)
+            new = True
+        if not new:
+            break
+
+
+def _emit_helper(unit, f, src, imp, it, rules, callers, rel, tline):
+    sig = src[it.kw_start:it.body_open]
+    body = src[it.body_open:it.body_close + 1]
+    toks = tokenize(sig)
+    k = 2
+    from rstok import skip_angle
+    if toks[k].text == "<":
+        k = skip_angle(toks, k)
+    c = match_close(toks, k)
+    head = sig[:toks[c].end]
+    tail = sig[toks[c].end:]
+    ret, where = None, ""
+    m = re.match(r"\s*->\s*(.*?)(\bwhere\b.*)?$", tail, re.S)
+    if m:
+        ret, where = m.group(1).strip(), (m.group(2) or "").strip()
+    elif tail.strip().startswith("where"):
+        where = tail.strip()
+    expr = _pure_expr(body) if (ret and "&mut" not in head) else None
+    qual = ((re.sub(r"<.*", "", imp.name).strip() + "::") if imp is not None else "") + it.name
+    lines = []
+    if imp is not None:
+        hdr = src[imp.start:imp.body_open]
+        hdr = hdr[re.search(r"\bimpl\b", hdr).start():]
+        lines.append(" ".join(hdr.split()) + " {")
+    lines.append("#[verifier::loop_isolation(false)]")
+    sigline = " ".join(head.split()) + ((" -> (r_: %s)" % ret) if ret else "") + ((" " + " ".join(where.split())) if where else "")
+    lines.append(sigline)
+    if expr is not None:
+        lines.append("    ensures r_ == (%s)," % " ".join(expr.split()))
+    pre = apply_rules("\n".join(lines), rules, unit, "helper " + qual)
+    first = len(unit.out_lines) + 1
+    unit.emit(pre, {"kind": "gen", "file": "<auto-extracted helper %s: signature copied from %s:%d>" % (qual, f, _line_of(src, it.kw_start)), "line": 0})
+    orig = body
+    body2 = _keep_lines(orig, apply_rules(body, rules + ["STD"], unit, "helper " + qual))
+    unit.emit(body2, {"kind": "src", "file": f, "line0": _line_of(src, it.body_open), "fn": qual})
+    if imp is not None:
+        unit.emit("}", {"kind": "gen", "file": "<auto-extracted helper %s>" % qual, "line": 0})
+    props = sorted(set(p for fr in callers for p in fr["props"]))
+    implicit = sorted(set(p for fr in callers for p in (fr.get("implicit") or [])))
+    names, rsig = fn_params(src, it)
+    rec = {"unit": unit.name, "file": f, "path": [qual], "name": it.name, "real_name": it.name, "qual": qual, "props": props, "implicit": implicit,
+           "rules": rules + ["STD"], "drop": [], "add": [], "real_params": names, "real_sig": rsig, "sig_sha256": sha(rsig),
+           "src_lines": [_line_of(src, it.kw_start), _line_of(src, it.end)], "body_sha256": sha(body), "out_first": first, "out_last": len(unit.out_lines),
+           "tmpl": rel, "tmpl_line": tline, "sig_expect": None, "inserts": [], "overlay_inserts": 0, "calls": _called_names(body2),
+           "auto_helper": True, "auto_contract": ("result == " + " ".join(expr.split())) if expr is not None else None,
+           "called_from": sorted(fr["qual"] for fr in callers)}
+    unit.fns.append(rec)
+    unit.auto_helpers.append(rec)
+    if expr is None:
+        unit.lost_hints.append("helper %s (%s:%d, called from %s) has no contract in the overlay and is not a single pure expression" % (
+            qual, f, rec["src_lines"][0], ", ".join(rec["called_from"])))
 
 
 def _emit_canary(unit, fnrec):
